@@ -36,7 +36,8 @@ PROPERTY_FILES = ['Properties/C08.v']
 REFUTED_FILES = ['Refuted/C08.v']
 MODEL_FILES = ['SF/PyDyn.v', 'Gen/Gen_util.v', 'Gen/Gen_type_blocks.v', 'Gen/Gen_c08.v', 'SF/UpdateFrame.v']
 TRANSLATED = ['slice_to_ascending_slice', 'cols_to_slice', 'resolve_dtype']
-RULE = ('exhaustive small spaces first: every block layout (zoo.layouts_for) of every prefix (0..4 columns) of three dtype patterns x EVERY subset of the '
+RULE = ('exhaustive small spaces first: every block layout (zoo.layouts_for) of every prefix (0..4 columns) of the dtype patterns IIII, IIFB, UIIO, FFFI '
+        '(quick tier: all layouts up to 3 columns and every other layout of 4 columns of IIII, the 4-column layouts of the mixed patterns) x EVERY subset of the '
         'columns as a key, on 3-row frames, for drop / mask / assign(unit) / astype; on one to three layouts per width additionally every integer, the '
         'deduplicated grid of all slices with start/stop in None,-R..R and step in None,+-1..3 (R=3 quick, 6 thorough; the thorough tier uses every layout), '
         'every duplicate-free list / integer array (sampled above 20), lists with negative positions, and a sweep of row keys (None, null slice, int, '
